@@ -6,6 +6,8 @@ CONSTANTS
  FixBreakOnError = TRUE
  FixSentinel = TRUE
  FixLfsFail = FALSE
+ DevStaleCache = FALSE
+ DevTruncAccepted = FALSE
 INIT Init
 NEXT Next
 INVARIANTS C33_CheckpointSafe
